@@ -25,6 +25,7 @@
      QL <raw>                       the registry's lenient reading of a raw query
      RR <scheme> <host> <base path> <base raw query> <ref>   net/url: base.Parse(ref)
      RB <limit> <docend> <total>    body bytes the client consumes (limitReader + json.Decoder buffering)
+     XB <limit> <size>              bytes consumed of the referrers index of the tag schema
      J <bytes>                      json.Decoder: end offset of the first (bracketed) value, or incomplete *)
 let z_of_int (i : int) : z =
   if i = 0 then Z0 else if i > 0 then Zpos (pos_of_int i) else Zneg (pos_of_int (- i))
@@ -236,6 +237,8 @@ let () =
       Printf.printf "%s %s\n" id (match kvs with [] -> "_" | _ -> String.concat "&" (List.map (fun (k, v) -> hex_of_str k ^ "=" ^ hex_of_str v) kvs))
     | [id; "RB"; limit; docend; total] ->
       Printf.printf "%s %d\n" id (int_of_n (consumed_of (z_of_int (int_of_string limit)) (n_of_int (int_of_string docend)) (n_of_int (int_of_string total))))
+    | [id; "XB"; limit; size] ->
+      Printf.printf "%s %d\n" id (int_of_n (consumed_index (z_of_int (int_of_string limit)) (n_of_int (int_of_string size))))
     | [id; "J"; doc] ->
       (match scan (str_of_hex doc) with
        | Some m -> Printf.printf "%s OK %d\n" id (int_of_nat m)
